@@ -96,6 +96,13 @@ CLAIMED = {
    text="TLC proves on the graph model that construction terminates and every cycle is cut for every topology of up to 2 classes x 2 fields (and 3 classes x 1 field) with every class or container as root. Each emitted cyclic (topology, root) is materialised (four class flavours, one or two modules); marshaller, unmarshaller and codec are built under a watchdog, and for each depth the raw wire value is unmarshalled, walked level by level (one flat event per level: right class, every scalar converted), marshalled back and sent through the codec; TLC validates every event.",
    ref="DESIGN.md section 4 C07",
    note="Trusted: TLC; the harness's level walker and value unroller; depth counts class levels (12 quick, 150 thorough); below the second level values are paths rather than full trees."),
+ "C11": dict(
+   engine="Member",
+   technique="TLA+ specs Terms/Wire (Strip) + Member_Trace.tla ('pair' relation evaluated by TLC); wrapper chains x positions x reference origins materialised in generated modules, W(T) vs T compared on marshal/unmarshal/encode/decode",
+   level="model_checking",
+   text="Wrapper chains of length <=3 over NewType / TypeAliasType (value and string) with Final/ClassVar where Python permits, over 10 base types, are placed at root, collection argument, mapping value, tuple member, union member, class field and on the back-edge of a recursive class, and referred to as objects, by string from the defining module (also from three nested calls), by ForwardRef(module=) and by module-qualified string; for every input the outcome with W(T) must equal the outcome with T (value terms equal, or both raise), which TLC checks event by event.",
+   ref="DESIGN.md section 4 C11",
+   note="Trusted: TLC; term projection; twin classes compared up to their name. typelib's memos are cleared before each string-referenced call (the cross-module poisoning of the reference memo is C12's subject). Strip idempotence is checked at model level on the Terms universe."),
 }
 NOT_BUILT = "check not built yet (build in progress; see DESIGN.md section 7 build order)"
 
